@@ -149,13 +149,18 @@ def m_lifecycle(tr):
             filled_now = info.amount_filled > pb.amount_filled
             closed_now = pb.is_open and not info.is_open
             nexp = (1 if filled_now else 0) + (1 if closed_now and not filled_now else 0)
+            if w.t == 0:
+                nexp = 0  # before the first event there is no time to stamp an event with
             if not (tr.raised and tr.a[0] != "bar"):
                 if len(got) != nexp:
                     bad.append(("event-count", f"order {k} ({m['kind']}): {len(got)} events for "
                                 f"{'a fill' if filled_now else ''}{' closure' if closed_now else ''} (expected {nexp})"))
         else:
-            # placed by this action: exactly one acceptance event
-            if len(got) != 1 or got[0].order.amount_filled != 0 or not got[0].order.is_open:
+            # placed by this action: exactly one acceptance event (none before the first event: there is no time yet)
+            if w.t == 0:
+                if got:
+                    bad.append(("acceptance-event", f"order {k}: {len(got)} events for an order placed before the first event"))
+            elif len(got) != 1 or got[0].order.amount_filled != 0 or not got[0].order.is_open:
                 bad.append(("acceptance-event", f"order {k}: {len(got)} events at acceptance"))
         if got:
             if info_tuple(got[-1].order) != info_tuple(info) and not (tr.raised and tr.a[0] != "bar"):
